@@ -1060,7 +1060,7 @@ func (r *Resolver) answer(ctx context.Context, req, resp *dns.Msg, parentDS []dn
 				// answered authoritatively (no referral crossed). Accept
 				// the unsigned data only if an insecure delegation between
 				// zone and qname is cryptographically proven.
-				if !r.provenInsecureDelegation(ctx, zone, q.Name, parentDS) {
+				if !r.provenInsecureDelegation(ctx, zone, insecureProofName(q), parentDS) {
 					zlog.Warn("DNSSEC verify failed (answer)", "query", dnsutil.FormatQuestion(q), "error", dnssec.ErrNoSignatures.Error())
 					return nil, dnssec.ErrNoSignatures
 				}
@@ -1256,7 +1256,7 @@ func (r *Resolver) authority(ctx context.Context, req, resp *dns.Msg, parentDS [
 				// only acceptable when qname sits under a proven insecure
 				// delegation below the signed zone we queried (the same
 				// shared-authority, no-referral case).
-				if !r.provenInsecureDelegation(ctx, zone, q.Name, parentDS) {
+				if !r.provenInsecureDelegation(ctx, zone, insecureProofName(q), parentDS) {
 					err := dnssec.ErrNoSignatures
 					zlog.Warn("DNSSEC verify failed (NXDOMAIN)", "query", dnsutil.FormatQuestion(q), "error", err.Error())
 					return nil, err
@@ -2574,6 +2574,21 @@ func (r *Resolver) isZoneSecure(ctx context.Context, qname string, parentDS []dn
 	}
 
 	return hasSupportedDS(parentDS)
+}
+
+// insecureProofName is the name whose position decides whether an unsigned
+// response to q may be excused by an insecure delegation. A DS RRset lives on
+// the parent side of the cut it names (RFC 4035 §3.1.4.1): the delegation of
+// its own owner says nothing about it, so for a DS question the walk stops one
+// label above. Without this the genuine "sub is an insecure delegation" proof
+// let a bare, unsigned NXDOMAIN for `sub DS` through in the signed parent.
+func insecureProofName(q dns.Question) string {
+	if q.Qtype == dns.TypeDS {
+		if i, end := dns.NextLabel(q.Name, 0); !end {
+			return q.Name[i:]
+		}
+	}
+	return q.Name
 }
 
 // provenInsecureDelegation reports whether qname falls under a
